@@ -49,4 +49,10 @@ def jobs(tier):
                 add('N=%d,r,warm=%d' % (N, w), N=N, mode='r', warm=w)
                 add('N=%d,both,k=%d,warm=%d' % (N, min(N, w + 1), w), N=N, mode='both', k=min(N, w + 1), warm=w)
                 add('N=%d,n,k=%d,warm=%d(enough centers)' % (N, w, w), N=N, mode='n', k=w, warm=w)
+                # initial centers that are NOT frames of the data set
+                add('N=%d,r,warm=%d,off-data init' % (N, w), N=N, mode='r', warm=w, warm_outside=True, props=('C02',))
+                add('N=%d,both,k=%d,warm=%d,off-data init' % (N, w + 2, w), N=N, mode='both', k=w + 2, warm=w, warm_outside=True, props=('C02',))
+                if N <= 3 or tier != 'quick':
+                    add('N=%d,both,k=%d,warm=%d,off-data init,shortcut' % (N, w + 1, w), N=N, mode='both', k=w + 1, warm=w, warm_outside=True,
+                        props=('C02',), shortcut='compare')
     return J
